@@ -431,7 +431,12 @@ theorem step_eval_for (ih : AllP E b ld ld' fuel) (env : EnvId) (ids : List Stri
   | ok v s' => exact fun h => ⟨h.1.restoreVars env hh, h.2⟩
   | err v m p t s' =>
     exact fun h => ⟨(Inv.foldl (fun s x _ h => h.remove env x) h.1).restoreVars env hh, h.2⟩
-  | fail f s' => exact id
+  | fail f s' =>
+    cases f with
+    | syn se => exact fun h => (Inv.foldl (fun s x _ h => h.remove env x) h).restoreVars env hh
+    | oof => exact id
+    | unsupported w => exact id
+    | host k => exact id
 
 theorem step_eval_lambda (env : EnvId) (ps : List String) (ds : List Node) (body : Node) (pos : Pos) :
     PresA E b (eval ld (fuel+1) env (.lambda ps ds body pos)) (eval ld' (fuel+1) env (.lambda ps ds body pos)) := by
